@@ -138,6 +138,8 @@ class Module:
         from .normal import normalise
 
         raw = raw if raw is not None else ast.parse(text, filename=path)
+        from .desugar import expand_table_functions
+        raw = expand_table_functions(raw)   # functions generated from a name -> value table by a globals() loop
         # named constants that do not exist in the reference tree are written out (sa/constprop.py)
         self.new_consts = new_consts or ({}, {}, {})
         if any(self.new_consts):
